@@ -66,7 +66,7 @@ func TestCheck(t *testing.T) {
 		keyPool[i] = echgen.NewKey(uint8(40+i), "public.example")
 	}
 
-	classes := []string{"plain", "plain", "plain", "grease-ech", "inner-marker-nokeys", "unknown-config-id", "known-id-garbage", "other-key-same-id", "tls12-with-valid-ech", "valid-ech-no-keys", "legacy-no-extensions", "cryptotls-13", "cryptotls-12"}
+	classes := []string{"plain", "plain", "plain", "grease-ech", "inner-marker-nokeys", "unknown-config-id", "known-id-garbage", "other-key-same-id", "tls12-with-valid-ech", "valid-ech-no-keys", "legacy-no-extensions", "cryptotls-13", "cryptotls-12", "fragmented"}
 	n := r.N(5000, 500000)
 	r.Parallel("passthrough", n, func(i int, rng *mrand.Rand) {
 		class := classes[i%len(classes)]
@@ -156,6 +156,31 @@ func TestCheck(t *testing.T) {
 			if rng.IntN(2) == 0 {
 				k.keys, keysetKind = unrelated(), "unrelated"
 			}
+		case "fragmented":
+			// a ClientHello split across several records (RFC 8446 section 5.1): larger than one record, or a small one cut at arbitrary points
+			opts.ECH = []hellogen.ECHState{hellogen.ECHNone, hellogen.ECHGrease}[rng.IntN(2)]
+			if rng.IntN(2) == 0 {
+				opts.TargetSize = 16385 + rng.IntN(45000)
+			} else {
+				opts.TargetSize = 0
+			}
+			k.hello = hellogen.Plain(rng, opts)
+			msg := k.hello.Message()
+			if len(msg) > 65536 {
+				return
+			}
+			ver := []uint16{0x0301, 0x0303}[rng.IntN(2)]
+			for len(msg) > 0 {
+				n := min(len(msg), 16384)
+				if opts.TargetSize == 0 || rng.IntN(3) == 0 {
+					n = min(len(msg), 1+rng.IntN(min(len(msg), 16384)))
+				}
+				k.record = append(k.record, tlswire.Record(22, ver, msg[:n])...)
+				msg = msg[n:]
+			}
+			if rng.IntN(2) == 0 {
+				k.keys, keysetKind = unrelated(), "unrelated"
+			}
 		case "cryptotls-13", "cryptotls-12":
 			cfg := &tls.Config{ServerName: hellogen.Name(rng), InsecureSkipVerify: true}
 			if cfg.ServerName[len(cfg.ServerName)-1] == '.' {
@@ -185,17 +210,27 @@ func TestCheck(t *testing.T) {
 		if k.record == nil {
 			k.record = k.hello.HelloRecord([]uint16{0x0301, 0x0303, 0x0302}[rng.IntN(3)])
 		}
-		if len(k.record)-5 > 16384 {
+		if class != "fragmented" && len(k.record)-5 > 16384 {
+			return
+		}
+		// the handshake message the client sends (its records concatenated)
+		var msg []byte
+		crecs, crest := tlswire.SplitRecords(k.record)
+		for _, cr := range crecs {
+			msg = append(msg, cr.Payload...)
+		}
+		if len(crest) != 0 {
+			r.Inconclusive("generator produced a broken record sequence (%s)", class)
 			return
 		}
 		// sanity: the independent parser must accept what we call syntactically valid
-		if _, err := tlswire.ParseClientHelloMessage(k.record[5:]); err != nil {
+		if _, err := tlswire.ParseClientHelloMessage(msg); err != nil {
 			r.Inconclusive("generator produced an invalid hello (%s): %v", class, err)
 			return
 		}
 		up := hellogen.Stream(rng, rng.IntN(3000), []int{16384, 16384 + 256, 200}[rng.IntN(3)])
 		down := hellogen.Stream(rng, rng.IntN(3000), []int{16384, 16384 + 256, 200}[rng.IntN(3)])
-		k.desc = map[string]any{"class": class, "keyset": keysetKind, "record": mon.Hex(k.record), "nkeys": len(k.keys), "up_len": len(up), "down_len": len(down)}
+		k.desc = map[string]any{"class": class, "keyset": keysetKind, "record": mon.Clip(mon.Hex(k.record), 6000), "client_records": len(crecs), "nkeys": len(k.keys), "up_len": len(up), "down_len": len(down)}
 		sig := "passthrough:" + class
 		r.Guard("passthrough", i, sig, k.desc, func() {
 			tc := tap.New(nil)
@@ -225,11 +260,33 @@ func TestCheck(t *testing.T) {
 				r.Violate("passthrough", i, sig+":accepted", "ECH accepted for a hello that cannot be accepted ("+class+")", k.desc)
 				return
 			}
-			if out.FirstErr != nil || len(out.First) != len(k.record) || out.First[0] != k.record[0] || !bytes.Equal(out.First[3:], k.record[3:]) {
-				k.desc["forwarded"] = mon.Hex(out.First)
-				r.Violate("passthrough", i, sig+":hello-modified", fmt.Sprintf("forwarded ClientHello differs from the client's bytes (len %d vs %d, err=%v)", len(out.First), len(k.record), out.FirstErr), k.desc)
+			// the backend must receive the ClientHello MESSAGE byte for byte; it reads handshake records until the message is complete
+			fwd := append([]byte{}, out.First...)
+			var got []byte
+			ferr := out.FirstErr
+			if ferr == nil && len(out.First) >= 5 {
+				got = append(got, out.First[5:]...)
+			}
+			for ferr == nil && len(got) < len(msg) {
+				var rec []byte
+				if rec, ferr = echrun.ReadRecord(out.Conn); ferr == nil {
+					if rec[0] != 22 || len(rec)-5 > 16384 {
+						ferr = fmt.Errorf("unexpected record type %d / length %d inside the forwarded hello", rec[0], len(rec)-5)
+					}
+					got = append(got, rec[5:]...)
+					fwd = append(fwd, rec...)
+				}
+			}
+			if ferr != nil || len(out.First) < 5 || out.First[0] != 22 || !bytes.Equal(got, msg) {
+				k.desc["forwarded"] = mon.Clip(mon.Hex(fwd), 4000)
+				r.Violate("passthrough", i, sig+":hello-modified", fmt.Sprintf("forwarded ClientHello differs from the client's message (len %d vs %d, err=%v)", len(got), len(msg), ferr), k.desc)
 				return
 			}
+			if class != "fragmented" && len(out.First) != len(k.record) {
+				r.Violate("passthrough", i, sig+":hello-reframed", fmt.Sprintf("a single-record hello was forwarded with a different record framing (%d vs %d bytes)", len(out.First), len(k.record)), k.desc)
+				return
+			}
+			out.First = fwd
 			// accessors vs independent extraction
 			wantSNI, _, _ := k.hello.ServerName()
 			wantALPN, _, _ := k.hello.ALPNProtos()
@@ -285,7 +342,7 @@ func TestCheck(t *testing.T) {
 		}
 	})
 	r.Floor("passed_through", int64(n)/2)
-	for _, c := range []string{"plain", "grease-ech", "unknown-config-id", "known-id-garbage", "other-key-same-id", "tls12-with-valid-ech", "valid-ech-no-keys", "cryptotls-13", "cryptotls-12"} {
+	for _, c := range []string{"plain", "grease-ech", "unknown-config-id", "known-id-garbage", "other-key-same-id", "tls12-with-valid-ech", "valid-ech-no-keys", "cryptotls-13", "cryptotls-12", "fragmented", "legacy-no-extensions"} {
 		r.Floor("class_"+c, int64(n/len(classes)/2))
 	}
 	r.Floor("compared_with_cryptotls", int64(n)/10)
